@@ -19,6 +19,13 @@ RULE = ("G-fmt generator over the fmtcat_pnum catalogue (single flags, pairs, ba
         "options/formats; each string through `pf` (entry point) and `pn` (parse_number) with both PARTIAL values; "
         "non-trivial = a digit or special was consumed (ok, or an error index > 0); distinct = distinct op lines")
 
+TECHNIQUE = "Lean 4 proof (iterator and parse_number invariants on a faithful model of parse.rs + skip/noskip iterators; grammar specification) + correspondence: implementation = model on exhaustive short strings per format, implementation vs documented grammar"
+LEVEL_TEXT = ("Proved in Lean about a statement-by-statement model of the float syntax layer (parse_number, sign/digit/exponent phases, skip and no-skip iterators, specials): "
+              "peek/step/take_n invariants (cursor never leaves the buffer, counts, returned bytes), parse_sign indices, parse_digits stays in the buffer and terminates. "
+              "The model is tied to the Rust by correspondence on ~870k ops over ~90 formats (exhaustive strings over the number alphabet up to length 5-6, long digit runs, huge exponents, specials) with 0 mismatches, "
+              "also in debug-assertion mode. The acceptance theorem against the documented grammar (Spec.Grammar) is being proved class by class; until then acceptance vs. grammar is decided by the correspondence. Partial proof, stated as such.")
+LEVEL_NOTE = "Trusted: Lean kernel; that Model.ParseNumber/Model.Iter mirror parse.rs/skip.rs (correspondence); Spec.Grammar is read off the documentation (kept short; reviewed by hand)."
+
 
 def feature_sets(tier):
     return ["format", "radix+format", "default"] if tier == "quick" else ["default", "pow2", "radix", "format", "radix+format", "compact+radix+format"]
